@@ -33,7 +33,7 @@ MANIFEST = {
                  'attribute kind x policy x datum under a recording '
                  'security policy; non-interference (two-run) and mediation '
                  '(policy log) oracles',
-    'text': 'A table of 126 access channels (client lookup, with / with '
+    'text': 'A table of 134 access channels (client lookup, with / with '
             'only, attribute / item / _.getattr / _[...] access in '
             'expressions, dtml-in items as objects and 2-tuples, '
             'skip_unauthorized, sequence-var-, first-/last-, the ten '
@@ -249,6 +249,15 @@ def after_lax_sub(builder, defaults=False):
     return build
 
 
+def via_mapping(builder):
+    """the client data is reached through a plain mapping `m` that the
+    template enters with <dtml-with m mapping only>"""
+    def build(attr, datum, other=None):
+        client, ns = builder(attr, datum, other)
+        return client, {'m': dict(ns)}
+    return build
+
+
 def ns_seq(attr, datum, other=None):
     return None, {'seq': [Node(**{attr: datum, 'ident': 'e1'}),
                           Node(**{attr: other or datum, 'ident': 'e2'})]}
@@ -351,6 +360,24 @@ CHANNELS = [
     ('with-only', '<dtml-with o only><dtml-var ATTR></dtml-with>', ns_obj,
      ''),
     ('with-expr', '<dtml-with "o"><dtml-var ATTR></dtml-with>', ns_obj, ''),
+    ('withmaponly-expr', '<dtml-with m mapping only><dtml-var "o.ATTR">'
+     '</dtml-with>', via_mapping(ns_obj), 'expr'),
+    ('withmaponly-with', '<dtml-with m mapping only><dtml-with o>'
+     '<dtml-var ATTR></dtml-with></dtml-with>', via_mapping(ns_obj), ''),
+    ('withmaponly-in', '<dtml-with m mapping only><dtml-in seq>'
+     '<dtml-var ATTR>,</dtml-in></dtml-with>', via_mapping(ns_seq), ''),
+    ('withmaponly-fmt', '<dtml-with m mapping only><dtml-var o fmt=ATTR>'
+     '</dtml-with>', via_mapping(ns_method), ''),
+    ('withmaponly-item-in', '<dtml-with m mapping only><dtml-in seq>'
+     '<dtml-var pubdata>,</dtml-in></dtml-with>',
+     via_mapping(ns_seq_refused), 'items'),
+    ('withmap-expr', '<dtml-with m mapping><dtml-var "o.ATTR"></dtml-with>',
+     via_mapping(ns_obj), 'expr'),
+    ('withmap-item-in', '<dtml-with m mapping><dtml-in seq>'
+     '<dtml-var pubdata>,</dtml-in></dtml-with>',
+     via_mapping(ns_seq_refused), 'items'),
+    ('withnsonly-expr', '<dtml-with "_.namespace(p=o)" only>'
+     '<dtml-var "p.ATTR"></dtml-with>', ns_obj, 'expr'),
     ('with-let', '<dtml-with o><dtml-let z=ATTR><dtml-var z></dtml-let>'
      '</dtml-with>', ns_obj, ''),
     ('with-only-expr', '<dtml-with o only><dtml-var "inner.ATTR">'
@@ -560,7 +587,8 @@ def site(cid):
     if cid.startswith('tree-branches'):
         return 'TreeTag.tpRenderTABLE[branches]'
     if cid.startswith('fmt-method') or cid in ('sub-then-fmt',
-                                                'laxsub-then-fmt'):
+                                                'laxsub-then-fmt',
+                                                'withmaponly-fmt'):
         return 'DT_Var.Var.render[fmt]'
     return cid
 
